@@ -63,4 +63,34 @@ def unsupported6 (s : Str) : Bool :=
     | some a, some b => (l.isEmpty || r.isEmpty) && a.length + b.length == 7
     | _, _ => false
 
+/-! ## Ethernet address texts (the forms the `EthAddr` docstring and comments name) -/
+
+def isHexDigit (c : Char) : Bool := decide (digitVal c < 16)
+def pairVal (h l : Char) : UInt8 := UInt8.ofNat (digitVal h * 16 + digitVal l)
+
+/-- the six bytes an Ethernet address text denotes: six raw characters; twelve hex digits; `xx:xx:xx:xx:xx:xx` or
+    `xx-xx-xx-xx-xx-xx`; `x:x:x:x:x:x` with one or two hex digits per field -/
+def ethDenote (s : Str) : Option Bytes :=
+  if s.length = 6 then some (s.map fun c => UInt8.ofNat c.toNat)
+  else match s with
+    | [h0, l0, h1, l1, h2, l2, h3, l3, h4, l4, h5, l5] =>
+      if [h0, l0, h1, l1, h2, l2, h3, l3, h4, l4, h5, l5].all isHexDigit then
+        some [pairVal h0 l0, pairVal h1 l1, pairVal h2 l2, pairVal h3 l3, pairVal h4 l4, pairVal h5 l5]
+      else looseDenote s
+    | [h0, l0, s0, h1, l1, s1, h2, l2, s2, h3, l3, s3, h4, l4, s4, h5, l5] =>
+      if [h0, l0, h1, l1, h2, l2, h3, l3, h4, l4, h5, l5].all isHexDigit ∧
+          ([s0, s1, s2, s3, s4] = [':', ':', ':', ':', ':'] ∨ [s0, s1, s2, s3, s4] = ['-', '-', '-', '-', '-']) then
+        some [pairVal h0 l0, pairVal h1 l1, pairVal h2 l2, pairVal h3 l3, pairVal h4 l4, pairVal h5 l5]
+      else none
+    | _ => looseDenote s
+where
+  looseDenote (s : Str) : Option Bytes :=
+    let ps := splitOn ':' s
+    if ps.length = 6 ∧ ps.all (fun p => (decide (p.length = 1) || decide (p.length = 2)) && p.all isHexDigit) then
+      some (ps.map fun p => UInt8.ofNat (groupVal p))
+    else none
+
+/-- the valid text `EthAddr` refuses: a loose form that is exactly twelve characters long -/
+def ethUnsupported (s : Str) : Bool := decide (s.length = 12) && s.any (· == ':')
+
 end Pox.Addr
